@@ -16,6 +16,16 @@ NextPI == \E tag \in Tags :
                  /\ (masked => MFTable[k][4] # 0)
                  /\ c' = <<"mf", k, masked, tag>>
                  /\ Emit("PI", PacketInTree("ip4udp", << <<k, masked>> >>, tag))
+\* ONF experimenter-class OXMs (decode only: the library has no encoder for the experimenter id) at every position of a field list
+ExpOxm(fld, w, tag) == [T |-> "MatchField", Class |-> <<255, 255>>, Field |-> <<fld>>, HasMask |-> FALSE, ExperimenterID |-> <<79, 78, 70, 0>>, Value |-> V(tag, w)]
+NextXO == \E pos \in 1..3, fld \in {42, 43}, both \in BOOLEAN, tag \in Tags :
+            LET x == ExpOxm(fld, IF fld = 42 THEN 2 ELSE 4, tag)
+                a == MF("f", 4, tag + 1, FALSE).tree  b == MF("f", 19, tag + 2, FALSE).tree  y == ExpOxm(85 - fld, IF fld = 42 THEN 4 ELSE 2, tag + 3)
+                fs == CASE pos = 1 -> <<x, a, b>> [] pos = 2 -> <<a, x, b>> [] pos = 3 -> <<a, b, x>>
+                fs2 == IF both THEN fs \o <<y, a>> ELSE fs
+                t == [PacketInTree("ip4udp", <<>>, tag) EXCEPT !.Match = [T |-> "Match", Fields |-> fs2]] IN
+            /\ c' = <<pos, fld, both, tag>>
+            /\ PrintT(ToJson([k |-> "parse", fam |-> "XO", kind |-> t.T, tree |-> t, frame |-> Enc(t), gotype |-> GoType(t), scribble |-> TRUE, noreenc |-> TRUE]))
 NextMP == \E kind \in {"desc", "flow", "aggregate", "table", "port", "queue", "portdesc"}, n \in {0, 1, 2, 5}, tag \in Tags :
             /\ (kind \in {"desc", "aggregate"} => n = 1)
             /\ c' = <<kind, n, tag>>
@@ -57,6 +67,6 @@ NextEB == \E kind \in BuiltKinds, tag \in Tags :
                               observe |-> << <<"len", el.n>>, <<"marshal", el.n>>, <<"len", el.n>>, <<"marshal", el.n>>, <<"marshal", el.n>> >>,
                               kids |-> <<>>, trees |-> [x \in {el.n} |-> el.tree]]))
 Init == c = <<>>
-Next == c = <<>> /\ CASE Family = "EB" -> NextEB [] Family = "SW" -> NextSW [] Family = "PI" -> NextPI [] Family = "MP" -> NextMP [] Family = "CT" -> NextCT
+Next == c = <<>> /\ CASE Family = "EB" -> NextEB [] Family = "SW" -> NextSW [] Family = "XO" -> NextXO [] Family = "PI" -> NextPI [] Family = "MP" -> NextMP [] Family = "CT" -> NextCT
 Spec == Init /\ [][Next]_c
 =============================================================================
